@@ -122,12 +122,15 @@ func (n *UDFNode) runUDF(snapshot []byte) (err error) {
 	n.wg.Wait()
 
 	// Close the udf
-	if err := n.udf.Close(); err != nil {
+	err = n.udf.Close()
+
+	// Always wait for the forwarding goroutine,
+	// the outputs are closed once this function returns.
+	fErr := <-forwardErr
+	if err != nil {
 		return err
 	}
-
-	// Wait/Return any error from the forwarding goroutine
-	return <-forwardErr
+	return fErr
 }
 
 func (n *UDFNode) abortedCallback() {
